@@ -35,7 +35,7 @@ ASSUMPTIONS = ["inputs are ASCII",
                "a SOURCE block written WITHOUT its ORGANISM line (empty organism, the writer leaves the empty line out as it may leave out "
                "every other block without text) is read as INSIDE the quantifier: the layout family omits empty DEFINITION / ACCESSION / "
                "VERSION / KEYWORDS blocks, which NCBI calls mandatory just as it does ORGANISM, and nothing in the property text singles "
-               "ORGANISM out; judged, known finding C01-source-without-organism (theorems carry the hypothesis orgOmitted = false)",
+               "ORGANISM out; judged (the defect found there, C01-source-without-organism, was repaired by 6ccbb58; the theorems cover the layout)",
                "numerals of a location text have at most 18 digits (Spec isLocTextB): strconv.Atoi clamps a numeral >= 2^63 to MaxInt64 and "
                "poly drops the range error, C02's model keeps the number; such texts are generated as drift probes only",
                "C01 compares the location text only; the parsed Location is property C02's (its model of parseLocation is the one the "
@@ -252,7 +252,7 @@ def record(r, tier, big=False, trap=0.001, small=False, repeat=False):
     else:
         cuts = [r.choice([0, 0, 1, 2]) for _ in range(7)]
     # five standard blocks left out when empty; sixth flag: the empty ORGANISM line alone left out under a written SOURCE
-    # (known finding C01-source-without-organism)
+    # (defect C01-source-without-organism, repaired by 6ccbb58)
     omit = "".join(r.choice("01") for _ in range(5)) + ("1" if r.random() < 0.3 else "0")
     f += [nats(cuts), omit]
     empties = r.random() < 0.25
@@ -332,7 +332,7 @@ def mk(mode, final_newline, header, recs):
 def cases(seed, tier):
     r = rng(seed, "C01")
     # SOURCE written without its ORGANISM line (organism empty), followed by each kind of block: an extra block before the
-    # references, a REFERENCE, an extra block after the references, FEATURES (known finding C01-source-without-organism)
+    # references, a REFERENCE, an extra block after the references, FEATURES (regression: C01-source-without-organism, 6ccbb58)
     for k in range(16 if tier == "quick" else 200):
         recs = []
         for _ in range(1 if k % 4 else 2):
@@ -478,11 +478,7 @@ def raw_cases(r, n):
         yield ["c01", "raw", r.choice(["parse", "parse", "multi", "flat"]), text]
 
 
-PARTIAL = ["parse_layout / parseMulti_layout / parseFlat_layout: proved for every layout except a SOURCE block written without its ORGANISM "
-           "line (hypothesis orgOmitted r l = false; RecOK / RecOKL carry it): there getSourceOrganism returns the text of the NEXT keyword "
-           "block as the organism — known finding C01-source-without-organism (witness theorem source_without_organism_witness, "
-           "prediction Spec toSequenceOrg); everything else of the statement is at full strength",
-           "features_recovered / parse_layout: proved for features whose qualifier keys are pairwise distinct; a feature with a repeated key "
+PARTIAL = ["features_recovered / parse_layout: proved for features whose qualifier keys are pairwise distinct; a feature with a repeated key "
            "(several /db_xref) keeps only the last value because poly.Feature.Attributes is a map[string]string — known finding "
            "C01-repeated-qualifier-key (witness theorem repeated_qualifier_key_witness); everything else of the statement is at full strength"]
 TECHNIQUE = ("Lean 4 proof over an executable model of genbank.Parse / ParseMulti / ParseFlat against an independent flat-file "
@@ -503,13 +499,13 @@ LEVEL_TEXT = ("(Layout family widened after review: empty standard blocks writte
               "parseFlat_layout (any 10-line header), parse_layout_locations_total / parseMulti_layout_locations_total / "
               "parseFlat_layout_locations_total (no location of an in-domain record makes parseLocation panic, from C02's "
               "parseLocation_total), parseMulti_layout_last_wins / parseFlat_layout_last_wins (the file theorems over wfLoose). "
-              "One layout choice is outside the theorems and is the second known finding: SOURCE written without ORGANISM. The model is tied to /repo by correspondence on the same (record, layout) "
+              "The layouts include a SOURCE block written without its (empty) ORGANISM line. The model is tied to /repo by correspondence on the same (record, layout) "
               "pairs: Parse, ParseMulti, ParseFlat and Read, ReadMulti, ReadFlat, ReadFlatGz, all fields the property lists.")
 LEVEL_NOTE = ("Trusted: Lean kernel; Spec/GbLayout.lean (the writer and wf, typed from the NCBI flat-file description); the scanners that "
               "stand for the four regular expressions; ASCII; C02's model of parseLocation (proved not to panic on domain location texts: "
               "Props.C02.parseLocation_total / Props.C01.parse_layout_locations_total); "
-              "file I/O and gzip of the Read* wrappers. Six defects found by this check or its review were repaired in /repo (5a12a0c, c94d396, "
-              "49c2e81, d6becc3, 1a072ef, 1650bb9); their exemplars stay in gen/corpus/C01 as regression cases.")
+              "file I/O and gzip of the Read* wrappers. Seven defects found by this check or its review were repaired in /repo (5a12a0c, c94d396, "
+              "49c2e81, d6becc3, 1a072ef, 1650bb9, 6ccbb58); their exemplars stay in gen/corpus/C01 as regression cases.")
 
 # the same requests executed 8 at a time in concurrent goroutines (check: PARALLEL / harness: VERIF_PAR)
 PARALLEL = {"quick": {"par": 8, "max_cases": 4000}, "thorough": {"par": 8, "max_cases": 40000, "race": True}}
